@@ -30,6 +30,9 @@ pub struct Sc {
     pub gen: Gen,
     pub seed: u64,
     pub via_child: bool,
+    /// where `.seed(n)` is called among the builder's setters: 0 first, 1 last, 2 in the middle
+    #[serde(default)]
+    pub seed_pos: u8,
 }
 
 pub struct C19;
@@ -42,11 +45,18 @@ enum Obj {
     Graph(Snap),
 }
 
-fn build(gen: &Gen, seed: u64) -> Obj {
+fn build(gen: &Gen, seed: u64, seed_pos: u8) -> Obj {
     match gen {
         Gen::Random { qubits, depth, p, preset } => {
             let mut b = Circuit::random();
-            b.seed(seed).qubits(*qubits).depth(*depth);
+            if seed_pos == 0 {
+                b.seed(seed);
+            }
+            b.qubits(*qubits);
+            if seed_pos == 2 {
+                b.seed(seed);
+            }
+            b.depth(*depth);
             match preset {
                 1 => {
                     b.clifford_t(p[4] as f32 / 1000.0);
@@ -62,30 +72,51 @@ fn build(gen: &Gen, seed: u64) -> Obj {
                         .p_t(p[4] as f32 / 1000.0);
                 }
             }
+            if seed_pos == 1 {
+                b.seed(seed);
+            }
             Obj::Circ(b.build())
         }
         Gen::HiddenShift { qubits, clifford_depth, n_ccz } => {
-            let (c, s) = Circuit::random_hidden_shift()
-                .seed(seed)
-                .qubits(*qubits)
-                .clifford_depth(*clifford_depth)
-                .n_ccz(*n_ccz)
-                .build();
+            let mut b = Circuit::random_hidden_shift();
+            if seed_pos == 0 {
+                b.seed(seed);
+            }
+            b.qubits(*qubits);
+            if seed_pos == 2 {
+                b.seed(seed);
+            }
+            b.clifford_depth(*clifford_depth).n_ccz(*n_ccz);
+            if seed_pos == 1 {
+                b.seed(seed);
+            }
+            let (c, s) = b.build();
             Obj::CircShift(c, s)
         }
-        Gen::PauliGadget { qubits, depth, min_weight, max_weight, phase_denom } => Obj::Circ(
-            Circuit::random_pauli_gadget()
-                .seed(seed)
-                .qubits(*qubits)
-                .depth(*depth)
-                .min_weight(*min_weight)
-                .max_weight(*max_weight)
-                .phase_denom(*phase_denom)
-                .build(),
-        ),
+        Gen::PauliGadget { qubits, depth, min_weight, max_weight, phase_denom } => {
+            let mut b = Circuit::random_pauli_gadget();
+            if seed_pos == 0 {
+                b.seed(seed);
+            }
+            b.qubits(*qubits).depth(*depth);
+            if seed_pos == 2 {
+                b.seed(seed);
+            }
+            b.min_weight(*min_weight).max_weight(*max_weight).phase_denom(*phase_denom);
+            if seed_pos == 1 {
+                b.seed(seed);
+            }
+            Obj::Circ(b.build())
+        }
         Gen::StabState { qubits, hash_backend } => {
             let mut b = EquatorialStabilizerStateBuilder::new();
-            b.seed(seed).qubits(*qubits);
+            if seed_pos != 1 {
+                b.seed(seed);
+            }
+            b.qubits(*qubits);
+            if seed_pos == 1 {
+                b.seed(seed);
+            }
             if *hash_backend {
                 let g: quizx::hash_graph::Graph = b.build();
                 Obj::Graph(Snap::of(&g))
@@ -343,7 +374,7 @@ impl C19 {
 /// Child-process entry: build and print the digest of the object.
 pub fn child_gen(spec: &str) -> i32 {
     let sc: Sc = serde_json::from_str(spec).expect("spec json");
-    let r = std::panic::catch_unwind(|| build(&sc.gen, sc.seed));
+    let r = std::panic::catch_unwind(|| build(&sc.gen, sc.seed, sc.seed_pos));
     match r {
         Ok(o) => println!("OBJ {:016x}", obj_digest(&o)),
         Err(_) => println!("OBJ panic"),
@@ -451,7 +482,7 @@ impl Property for C19 {
             "stab_state" => Gen::StabState { qubits: 1 + d.choose("ss.q", 8), hash_backend: d.coin("ss.hb", 1, 2) },
             _ => Gen::SurfaceCode { distance: 2 + d.choose("sc.d", 3), rounds: d.choose("sc.r", 4) },
         };
-        Sc { gen, seed, via_child: d.coin("child", 1, 12) }
+        Sc { gen, seed, via_child: d.coin("child", 1, 12), seed_pos: d.choose("seedpos", 3) as u8 }
     }
 
     fn execute(&self, sc: &Sc, _sub: &str, exec: Decider, env: &Env) -> RunOut {
@@ -470,7 +501,8 @@ impl Property for C19 {
         let core = Core::new(exec, 1);
         let g1 = sc.gen.clone();
         let seed = sc.seed;
-        let (res, core) = with_sim(core, move || (build(&g1, seed), build(&g1, seed)));
+        let sp = sc.seed_pos;
+        let (res, core) = with_sim(core, move || (build(&g1, seed, sp), build(&g1, seed, (sp + 1) % 3)));
         let dec = core.dec;
         out.steps += 2;
         out.count("ambient_draws_during_seeded_build", core.stats.rng_draws);
@@ -515,7 +547,7 @@ impl Property for C19 {
         }
         if a != b {
             out.violations.push(
-                Violation::new("not_reproducible", format!("{:?} seed {}: two builds in one thread differ", sc.gen, sc.seed))
+                Violation::new("not_reproducible", format!("{:?} seed {}: two builds in one thread (with .seed() called at different positions among the setters) differ", sc.gen, sc.seed))
                     .with("generator", name)
                     .with("where", "same_thread"),
             );
@@ -523,7 +555,7 @@ impl Property for C19 {
         // (ii) another OS thread
         {
             let g2 = sc.gen.clone();
-            let h = std::thread::spawn(move || std::panic::catch_unwind(|| build(&g2, seed)).ok());
+            let h = std::thread::spawn(move || std::panic::catch_unwind(|| build(&g2, seed, sp)).ok());
             match h.join() {
                 Ok(Some(c)) => {
                     out.probe("other_thread_compared");
@@ -574,7 +606,7 @@ impl Property for C19 {
         if big && !matches!(sc.gen, Gen::SurfaceCode { .. }) {
             let g3 = sc.gen.clone();
             let (s1, s2) = (sc.seed.wrapping_add(1), sc.seed.wrapping_sub(1));
-            if let Ok((x, y)) = std::panic::catch_unwind(move || (build(&g3, s1), build(&g3, s2))) {
+            if let Ok((x, y)) = std::panic::catch_unwind(move || (build(&g3, s1, sp), build(&g3, s2, sp))) {
                 out.nontrivial = x != a && y != a;
             }
         }
